@@ -107,7 +107,7 @@ Qed.
 
 Example C04_history_run :
   match hrun [HMap 0x1234 0x777 3; HTranslate 0x1234abc; HUnmap 0x1234; HTranslate 0x1234abc; HMap 0x40000000 5 1] boot2 with
-  | Ok (_, rs) => rs = [(0, 0); (0, 0x777abc); (0, 0); (E_INVALID, 0); (E_ALLOC, 0)]
+  | Ok (_, rs) => rs = [(0, 0); (0, 0x777abc); (0, 0); (E_INVALID, 0); (0, 0)]
   | Stray => False
   end.
 Proof. vm_compute. reflexivity. Qed.
